@@ -1,8 +1,542 @@
-use serde_json::Value as J;
+//! C09: every module the front end accepts must give Rust code that rustc accepts.
+//!
+//! Every case is one ASN.1 module. Cases the real front end accepts (parse + resolve, in process) are
+//! written as `asn1rs::asn_to_rust!(r#"..."#);` - exactly what a user writes - one file per case into a
+//! scratch workspace of 16 crates, and `cargo check` (real rustc, real proc macros) decides. Errors are
+//! attributed to cases by the file of their primary span; failing cases are taken out and the check is
+//! repeated until every remaining case compiles together (rustc stops at the first failing phase, so
+//! one round does not show every failing case), so every case ends in exactly one of: rejected by the
+//! front end, compiles, does not compile.
+
+use crate::c07;
+use crate::c08;
+use asn1rs_model::parse::Tokenizer;
+use asn1rs_model::Model;
+use serde_json::{json, Map, Value as J};
+use std::collections::{BTreeMap, BTreeSet};
+use std::path::{Path, PathBuf};
 use vcore::report::*;
-pub fn run(_args: &Args) -> ! {
-    machinery_error("C09 not built yet")
+
+#[derive(Clone, Debug)]
+pub struct Case {
+    /// group/position/name
+    pub label: String,
+    pub text: String,
 }
-pub fn replay(_c: &J) -> ! {
-    machinery_error("C09 not built yet")
+
+pub const KEYWORDS: &[&str] = &[
+    "as", "async", "await", "break", "const", "continue", "crate", "dyn", "else", "enum", "extern", "false", "fn", "for", "if", "impl", "in", "let", "loop", "match", "mod", "move", "mut", "pub", "ref", "return", "self", "static", "struct", "super", "trait", "true", "type",
+    "unsafe", "use", "where", "while", "abstract", "become", "box", "do", "final", "macro", "override", "priv", "typeof", "unsized", "virtual", "yield", "try", "gen", "union", "raw",
+];
+
+/// lowercase names that are no keywords but meet names the generated code uses itself
+pub const RISKY_LOWER: &[&str] = &["value", "reader", "writer", "default", "new", "read", "write", "clone", "fmt", "eq", "variant", "variants", "index", "min", "max", "len", "into", "from", "none", "some", "ok", "err", "vec", "string", "u8", "i64", "bool", "str", "main", "std", "core", "asn1rs", "prelude", "r", "tag", "constants", "inner", "other", "result", "option"];
+
+/// type names: capitalised keywords and names of the Rust prelude / of asn1rs::prelude that generated code relies on
+pub const TYPE_NAMES: &[&str] = &[
+    "Self", "Box", "Option", "Vec", "String", "Some", "None", "Ok", "Err", "Result", "Default", "Clone", "Copy", "Debug", "PartialEq", "Eq", "Hash", "PartialOrd", "Ord", "Sized", "Send", "Sync", "Drop", "Fn", "Iterator", "From", "Into", "ToString", "ToOwned", "AsRef", "BitVec", "Reader", "Writer",
+    "Readable", "Writable", "Error", "Utf8String", "Integer", "Boolean", "Constraint", "Null", "Sequence", "Choice", "Enumerated", "Scope", "Type", "Struct", "Enum", "Impl", "Trait", "Mod", "Crate", "Super", "Static", "Const", "Async", "Dyn", "Tag", "Bool", "Str", "U8", "I64", "Usize", "Std", "Core", "Asn1rs", "Prelude", "Main", "Test",
+];
+
+fn module(body: &str) -> String {
+    format!("Gen DEFINITIONS AUTOMATIC TAGS ::= BEGIN\n{body}\nEND\n")
+}
+
+fn keyword_cases(names: &[&str], group: &str, out: &mut Vec<Case>) {
+    for n in names {
+        let mut p = |pos: &str, body: String| out.push(Case { label: format!("{group}/{pos}/{n}"), text: module(&body) });
+        p("sequence-component", format!("T ::= SEQUENCE {{ {n} INTEGER (0..7), z BOOLEAN }}"));
+        p("sequence-optional-component", format!("T ::= SEQUENCE {{ z BOOLEAN, {n} UTF8String OPTIONAL }}"));
+        p("set-component", format!("T ::= SET {{ {n} INTEGER (0..7), z BOOLEAN }}"));
+        p("choice-alternative", format!("T ::= CHOICE {{ {n} INTEGER (0..7), z BOOLEAN }}"));
+        p("enumerated-item", format!("T ::= ENUMERATED {{ {n}, zz }}"));
+        p("named-number", format!("T ::= INTEGER {{ {n}(1) }} (0..7)"));
+        p("named-number-of-component", format!("T ::= SEQUENCE {{ a INTEGER {{ {n}(1) }} (0..7) }}"));
+        p("named-bit", format!("T ::= BIT STRING {{ {n}(1) }} (SIZE(8))"));
+        p("value-reference", format!("{n} INTEGER ::= 5\nT ::= INTEGER (0..{n})"));
+        p("inline-sequence-component", format!("T ::= SEQUENCE {{ {n} SEQUENCE {{ b BOOLEAN }} }}"));
+        p("inline-enumerated-component", format!("T ::= SEQUENCE {{ {n} ENUMERATED {{ x, y }} }}"));
+        p("default-enumerated-item", format!("E ::= ENUMERATED {{ {n}, zz }}\nT ::= SEQUENCE {{ a E DEFAULT {n} }}"));
+    }
+}
+
+fn type_name_cases(out: &mut Vec<Case>) {
+    for n in TYPE_NAMES {
+        let mut p = |pos: &str, body: String| out.push(Case { label: format!("type-name/{pos}/{n}"), text: module(&body) });
+        p("sequence", format!("{n} ::= SEQUENCE {{ a INTEGER (0..7) OPTIONAL, b UTF8String, c SEQUENCE OF BOOLEAN, d BIT STRING, e OCTET STRING }}\nT ::= SEQUENCE {{ x {n}, y {n} OPTIONAL }}"));
+        p("integer", format!("{n} ::= INTEGER (0..7)\nT ::= SEQUENCE {{ x {n}, y SEQUENCE OF {n}, z UTF8String OPTIONAL }}"));
+        p("enumerated", format!("{n} ::= ENUMERATED {{ a, b }}\nT ::= SEQUENCE {{ x {n} DEFAULT b, z UTF8String OPTIONAL }}"));
+        p("choice", format!("{n} ::= CHOICE {{ a BOOLEAN, b NULL, c UTF8String }}\nT ::= CHOICE {{ x {n}, y SEQUENCE OF {n} }}"));
+        p("sequence-of", format!("{n} ::= SEQUENCE OF INTEGER (0..7)\nT ::= SEQUENCE {{ x {n}, z OCTET STRING OPTIONAL }}"));
+    }
+}
+
+fn collision_cases(out: &mut Vec<Case>) {
+    let mut p = |name: &str, body: &str| out.push(Case { label: format!("collision/{name}"), text: module(body) });
+    // distinct ASN.1 identifiers that meet in one Rust identifier
+    p("components/ab-c+abC", "T ::= SEQUENCE { ab-c BOOLEAN, abC BOOLEAN }");
+    p("components/a-b+a-B", "T ::= SEQUENCE { a-b BOOLEAN, a-B BOOLEAN }");
+    p("components/abc+aBC", "T ::= SEQUENCE { abc BOOLEAN, aBC BOOLEAN }");
+    p("components/a1+a-1", "T ::= SEQUENCE { a1 BOOLEAN, a-1 BOOLEAN }");
+    p("set-components/ab-c+abC", "T ::= SET { ab-c BOOLEAN, abC BOOLEAN }");
+    p("alternatives/ab-c+abC", "T ::= CHOICE { ab-c BOOLEAN, abC NULL }");
+    p("alternatives/abc+aBC", "T ::= CHOICE { abc BOOLEAN, aBC NULL }");
+    p("alternatives/a-b+a-B", "T ::= CHOICE { a-b BOOLEAN, a-B NULL }");
+    p("enumerated-items/ab-c+abC", "T ::= ENUMERATED { ab-c, abC }");
+    p("enumerated-items/a-b+a-B", "T ::= ENUMERATED { a-b, a-B }");
+    p("enumerated-items/abc+aBC", "T ::= ENUMERATED { abc, aBC }");
+    p("types/Ab-c+AbC", "Ab-c ::= BOOLEAN\nAbC ::= NULL\nT ::= SEQUENCE { x Ab-c, y AbC }");
+    p("types/AB+Ab", "AB ::= BOOLEAN\nAb ::= NULL\nT ::= SEQUENCE { x AB, y Ab }");
+    p("types/A-B+AB", "A-B ::= BOOLEAN\nAB ::= NULL\nT ::= SEQUENCE { x A-B, y AB }");
+    p("types/ABC+Abc", "ABC ::= BOOLEAN\nAbc ::= NULL\nT ::= SEQUENCE { x ABC, y Abc }");
+    p("type-vs-inline-sequence", "T ::= SEQUENCE { a SEQUENCE { b BOOLEAN } }\nTA ::= BOOLEAN");
+    p("type-vs-inline-enumerated", "T ::= SEQUENCE { a ENUMERATED { x, y } }\nTA ::= BOOLEAN");
+    p("type-vs-inline-choice", "T ::= SEQUENCE { a CHOICE { x NULL, y BOOLEAN } }\nTA ::= BOOLEAN");
+    p("type-vs-inline-of-choice", "T ::= CHOICE { a SEQUENCE { b BOOLEAN }, c NULL }\nTA ::= BOOLEAN");
+    p("inline-vs-inline", "T ::= SEQUENCE { a-b SEQUENCE { x BOOLEAN } }\nTA ::= SEQUENCE { b SEQUENCE { y BOOLEAN } }");
+    p("inline-list-element-enumerated", "T ::= SEQUENCE OF ENUMERATED { a, b }");
+    p("inline-list-element-sequence", "T ::= SEQUENCE OF SEQUENCE { a BOOLEAN }");
+    p("inline-list-element-choice", "T ::= SEQUENCE OF CHOICE { a BOOLEAN, b NULL }");
+    p("inline-list-element-of-component", "T ::= SEQUENCE { l SEQUENCE OF ENUMERATED { a, b }, m SEQUENCE OF SEQUENCE { a BOOLEAN } }");
+    p("inline-list-in-list", "T ::= SEQUENCE OF SEQUENCE OF ENUMERATED { a, b }");
+    p("inline-set-of-element-enumerated", "T ::= SET OF ENUMERATED { a, b }");
+    // names of generated accessors
+    p("accessor/a+a-mut", "T ::= SEQUENCE { a INTEGER (0..3), a-mut INTEGER (0..3) }");
+    p("accessor/a+set-a", "T ::= SEQUENCE { a INTEGER (0..3), set-a INTEGER (0..3) }");
+    p("accessor/a+a-min", "T ::= SEQUENCE { a INTEGER (0..3), a-min INTEGER (0..3) }");
+    p("accessor/a+a-max", "T ::= SEQUENCE { a INTEGER (0..3), a-max INTEGER (0..3) }");
+    p("accessor/value-min", "T ::= SEQUENCE { value INTEGER (0..3), value-min BOOLEAN }");
+    p("accessor/choice-a+is-a", "T ::= CHOICE { a BOOLEAN, is-a NULL }");
+    // constants of named numbers / bits
+    p("constants/a:b-c+a-b:c", "T ::= SEQUENCE { a INTEGER { b-c(1) } (0..3), a-b INTEGER { c(2) } (0..3) }");
+    p("constants/named-numbers-b-c+bC", "T ::= INTEGER { b-c(1), bC(2) } (0..3)");
+    p("constants/named-bits-b-c+bC", "T ::= BIT STRING { b-c(1), bC(2) } (SIZE(8))");
+    p("constants/named-number-min", "T ::= INTEGER { min(1), max(2) } (0..3)");
+    p("constants/component-named-number-min", "T ::= SEQUENCE { a INTEGER { min(1), max(2) } (0..3) }");
+    p("value-references/ab-c+abC", "ab-c INTEGER ::= 1\nabC INTEGER ::= 2\nT ::= INTEGER (0..7)");
+    p("value-references/ab-c+ab-C", "ab-c INTEGER ::= 1\nab-C INTEGER ::= 2\nT ::= INTEGER (0..7)");
+    // a component named like its own type, a type named like the module
+    p("component-named-like-type", "T ::= SEQUENCE { t T2 }\nT2 ::= BOOLEAN");
+    p("type-named-like-module", "Gen ::= SEQUENCE { gen BOOLEAN }");
+    p("recursive-through-list", "T ::= SEQUENCE { children SEQUENCE OF T }");
+    p("recursive-through-optional", "T ::= SEQUENCE { next T OPTIONAL }");
+    p("recursive-through-choice", "T ::= CHOICE { leaf NULL, node SEQUENCE OF T }");
+    // separators and digits
+    p("names/digits", "T1 ::= SEQUENCE { a1 BOOLEAN, a2b BOOLEAN, a-2 BOOLEAN }\nT ::= SEQUENCE { x T1 }");
+    p("names/long-hyphenated", "T ::= SEQUENCE { this-is-a-very-long-hyphenated-component-name BOOLEAN, thisIsCamelCase BOOLEAN, mixed-camelCase-name BOOLEAN }");
+    p("names/upper-run", "T ::= SEQUENCE { httpURL BOOLEAN, xMLParser BOOLEAN, iD BOOLEAN }\nHTTPRequest ::= BOOLEAN\nXMLHttpRequest ::= NULL");
+    p("names/single-letter", "A ::= BOOLEAN\nT ::= SEQUENCE { a A, b BOOLEAN }");
+}
+
+fn default_and_value_cases(out: &mut Vec<Case>) {
+    let mut p = |name: String, body: String| out.push(Case { label: format!("literal/{name}"), text: module(&body) });
+    let ints: &[(&str, &str, &[&str])] = &[
+        ("INTEGER", "un", &["0", "1", "-1", "255", "256", "-129", "65536", "4294967296", "9223372036854775807", "-9223372036854775808"]),
+        ("INTEGER (0..7)", "u3", &["0", "7"]),
+        ("INTEGER (-5..5)", "s5", &["-5", "0", "5"]),
+        ("INTEGER (0..255)", "u8", &["0", "255"]),
+        ("INTEGER (-128..127)", "i8", &["-128", "127"]),
+        ("INTEGER (0..65535)", "u16", &["65535"]),
+        ("INTEGER (-32768..32767)", "i16", &["-32768"]),
+        ("INTEGER (0..4294967295)", "u32", &["4294967295"]),
+        ("INTEGER (-2147483648..2147483647)", "i32", &["-2147483648"]),
+        ("INTEGER (0..9223372036854775807)", "u63", &["9223372036854775807"]),
+        ("INTEGER (-9223372036854775808..9223372036854775807)", "i64", &["-9223372036854775808", "9223372036854775807"]),
+        ("INTEGER (0..7,...)", "x3", &["0", "7", "100"]),
+        ("INTEGER (1..MAX)", "semi", &["1", "100000"]),
+        ("INTEGER (MIN..5)", "min5", &["0", "5"]),
+    ];
+    for (ty, tn, vals) in ints {
+        for v in *vals {
+            p(format!("default/integer-{tn}/{v}"), format!("T ::= SEQUENCE {{ a {ty} DEFAULT {v} }}"));
+            p(format!("value-reference/integer-{tn}/{v}"), format!("my-val {ty} ::= {v}\nT ::= SEQUENCE {{ a BOOLEAN }}"));
+            p(format!("default-by-reference/integer-{tn}/{v}"), format!("my-val {ty} ::= {v}\nT ::= SEQUENCE {{ a {ty} DEFAULT my-val }}"));
+        }
+    }
+    for v in ["TRUE", "FALSE"] {
+        p(format!("default/boolean/{v}"), format!("T ::= SEQUENCE {{ a BOOLEAN DEFAULT {v} }}"));
+        p(format!("value-reference/boolean/{v}"), format!("my-val BOOLEAN ::= {v}\nT ::= SEQUENCE {{ a BOOLEAN }}"));
+        p(format!("default-by-reference/boolean/{v}"), format!("my-val BOOLEAN ::= {v}\nT ::= SEQUENCE {{ a BOOLEAN DEFAULT my-val }}"));
+    }
+    let strings: &[(&str, &str)] = &[("plain", "\"ab\""), ("empty", "\"\""), ("space", "\"a b\""), ("doubled-quote", "\"a\"\"b\""), ("backslash", "\"a\\b\""), ("backslash-n", "\"a\\nb\""), ("braces", "\"{a}\""), ("hash", "\"a#b\""), ("raw-end", "\"a\"#b\""), ("non-ascii", "\"\u{e4}\u{20ac}\""), ("apostrophe", "\"it's\""), ("trailing-backslash", "\"a\\\"")];
+    for ty in ["UTF8String", "IA5String", "NumericString", "PrintableString", "VisibleString", "UTF8String (SIZE(0..20))"] {
+        let tn = ty.split(' ').next().unwrap().to_lowercase() + if ty.contains("SIZE") { "-sized" } else { "" };
+        for (vn, v) in strings {
+            p(format!("default/{tn}/{vn}"), format!("T ::= SEQUENCE {{ a {ty} DEFAULT {v} }}"));
+            p(format!("value-reference/{tn}/{vn}"), format!("my-val {ty} ::= {v}\nT ::= SEQUENCE {{ a BOOLEAN }}"));
+            p(format!("default-by-reference/{tn}/{vn}"), format!("my-val {ty} ::= {v}\nT ::= SEQUENCE {{ a {ty} DEFAULT my-val }}"));
+        }
+    }
+    let octs: &[(&str, &str)] = &[("hex", "'DEAD'H"), ("hex-empty", "''H"), ("hex-odd", "'ABC'H"), ("hex-lower", "'dead'H"), ("bin", "'01010101'B"), ("bin-short", "'101'B"), ("bin-empty", "''B")];
+    for ty in ["OCTET STRING", "OCTET STRING (SIZE(0..4))", "BIT STRING", "BIT STRING (SIZE(0..16))"] {
+        let tn = ty.replace(' ', "-").replace(['(', ')'], "").to_lowercase();
+        for (vn, v) in octs {
+            p(format!("default/{tn}/{vn}"), format!("T ::= SEQUENCE {{ a {ty} DEFAULT {v} }}"));
+            p(format!("value-reference/{tn}/{vn}"), format!("my-val {ty} ::= {v}\nT ::= SEQUENCE {{ a BOOLEAN }}"));
+            p(format!("default-by-reference/{tn}/{vn}"), format!("my-val {ty} ::= {v}\nT ::= SEQUENCE {{ a {ty} DEFAULT my-val }}"));
+        }
+    }
+    // enumerations: referenced and inline, items needing name mangling
+    for (vn, item) in [("plain", "green"), ("hyphen", "dark-blue"), ("camel", "lightRed"), ("digit", "c3")] {
+        p(format!("default/enumerated-reference/{vn}"), format!("Colour ::= ENUMERATED {{ red, green, dark-blue, lightRed, c3 }}\nT ::= SEQUENCE {{ a Colour DEFAULT {item} }}"));
+        p(format!("default/enumerated-inline/{vn}"), format!("T ::= SEQUENCE {{ a ENUMERATED {{ red, green, dark-blue, lightRed, c3 }} DEFAULT {item} }}"));
+        p(format!("default/enumerated-extensible/{vn}"), format!("Colour ::= ENUMERATED {{ red, green, dark-blue, lightRed, ..., c3 }}\nT ::= SEQUENCE {{ a Colour DEFAULT {item} }}"));
+        p(format!("value-reference/enumerated/{vn}"), format!("Colour ::= ENUMERATED {{ red, green, dark-blue, lightRed, c3 }}\nmy-val Colour ::= {item}\nT ::= SEQUENCE {{ a BOOLEAN }}"));
+    }
+    // DEFAULT through a type reference, in every container position
+    p("default/reference-to-integer".into(), "Other ::= INTEGER (0..7)\nT ::= SEQUENCE { a Other DEFAULT 3 }".into());
+    p("default/reference-to-boolean".into(), "Other ::= BOOLEAN\nT ::= SEQUENCE { a Other DEFAULT TRUE }".into());
+    p("default/reference-to-string".into(), "Other ::= UTF8String\nT ::= SEQUENCE { a Other DEFAULT \"x\" }".into());
+    p("default/reference-to-octet-string".into(), "Other ::= OCTET STRING\nT ::= SEQUENCE { a Other DEFAULT 'AB'H }".into());
+    p("default/reference-to-reference".into(), "Inner ::= INTEGER (0..7)\nOther ::= Inner\nT ::= SEQUENCE { a Other DEFAULT 3 }".into());
+    p("default/in-set".into(), "T ::= SET { a INTEGER (0..7) DEFAULT 3, b BOOLEAN DEFAULT TRUE }".into());
+    p("default/extension-addition".into(), "T ::= SEQUENCE { z BOOLEAN, ..., a INTEGER (0..7) DEFAULT 3, b UTF8String DEFAULT \"x\" }".into());
+    p("default/in-inline-sequence".into(), "T ::= SEQUENCE { o SEQUENCE { a INTEGER (0..7) DEFAULT 3 } }".into());
+    p("default/in-list-element".into(), "T ::= SEQUENCE OF SEQUENCE { a INTEGER (0..7) DEFAULT 3 }".into());
+    p("default/in-choice-alternative-sequence".into(), "T ::= CHOICE { s SEQUENCE { a INTEGER (0..7) DEFAULT 3 }, n NULL }".into());
+    p("default/tagged".into(), "T ::= SEQUENCE { a [5] INTEGER (0..7) DEFAULT 3, b [APPLICATION 2] BOOLEAN DEFAULT FALSE }".into());
+    p("default/named-number-type".into(), "T ::= SEQUENCE { a INTEGER { low(0), high(3) } (0..3) DEFAULT 2 }".into());
+    p("default/null".into(), "T ::= SEQUENCE { a NULL DEFAULT NULL }".into());
+    p("default/many".into(), "T ::= SEQUENCE { a INTEGER DEFAULT 1, b INTEGER (0..7) DEFAULT 2, c BOOLEAN DEFAULT TRUE, d UTF8String DEFAULT \"d\", e OCTET STRING DEFAULT 'EE'H, f IA5String DEFAULT \"f\" }".into());
+    // value references used in constraints
+    p("value-reference/in-range".into(), "lo INTEGER ::= -3\nhi INTEGER ::= 9\nT ::= INTEGER (lo..hi)".into());
+    p("value-reference/in-size".into(), "n INTEGER ::= 4\nT ::= OCTET STRING (SIZE(1..n))".into());
+    p("value-reference/in-list-size".into(), "n INTEGER ::= 4\nT ::= SEQUENCE (SIZE(n)) OF BOOLEAN".into());
+    p("value-reference/typed-by-reference".into(), "Other ::= INTEGER (0..7)\nmy-val Other ::= 3\nT ::= SEQUENCE { a BOOLEAN }".into());
+    p("value-reference/many".into(), "a-val INTEGER ::= 1\nb-val BOOLEAN ::= TRUE\nc-val UTF8String ::= \"c\"\nd-val OCTET STRING ::= 'DD'H\nT ::= SEQUENCE { a BOOLEAN }".into());
+}
+
+pub fn cases(thorough: bool) -> Vec<Case> {
+    let mut out = vec![];
+    keyword_cases(KEYWORDS, "keyword", &mut out);
+    keyword_cases(RISKY_LOWER, "risky-name", &mut out);
+    type_name_cases(&mut out);
+    collision_cases(&mut out);
+    default_and_value_cases(&mut out);
+    // type forms: the C07 leaf forms in component contexts
+    let quick_ctx = ["top-level", "sequence-mandatory", "sequence-default", "choice-alternative", "extension-addition", "sequence-of-any-p", "set-of-any-p"];
+    for leaf in c07::leafs() {
+        for tag in c07::tags() {
+            if !thorough && tag.is_some() {
+                continue;
+            }
+            for c in c07::contexts(&leaf, tag) {
+                let ctx = c.label.split('/').next().unwrap_or("").to_string();
+                let of = ctx.starts_with("sequence-of-") || ctx.starts_with("set-of-");
+                let keep = if thorough { !of || ctx.ends_with("-p") } else { quick_ctx.contains(&ctx.as_str()) };
+                if keep {
+                    out.push(Case { label: format!("form/{}", c.label), text: c.module.asn() });
+                }
+            }
+        }
+    }
+    // every size form on lists of a few element types (the list contexts above use one size form)
+    for c in c07::depth2_cases() {
+        out.push(Case { label: format!("form/{}", c.label), text: c.module.asn() });
+    }
+    for c in c07::module_level_cases() {
+        if !c.module.imports.is_empty() {
+            // a module with IMPORTS compiles only next to the modules it imports from: not a single-module case
+            continue;
+        }
+        out.push(Case { label: format!("module/{}", c.label), text: c.module.asn() });
+    }
+    for (l, t) in c08::repo_corpus() {
+        out.push(Case { label: l, text: t });
+    }
+    out
+}
+
+#[derive(Debug, Clone, PartialEq)]
+pub enum Front {
+    Rejected(String),
+    Accepted,
+    Panic(String),
+}
+
+pub fn front(text: &str) -> Front {
+    let r = catch(|| match Model::try_from(Tokenizer.parse(text)) {
+        Err(e) => Err(format!("parse: {}", truncate(format!("{e:?}").lines().next().unwrap_or(""), 120))),
+        Ok(m) => m.try_resolve().map(|_| ()).map_err(|e| format!("resolve: {}", truncate(format!("{e:?}").lines().next().unwrap_or(""), 120))),
+    });
+    match r {
+        Err(p) => Front::Panic(format!("front end: {p}")),
+        Ok(Err(e)) => Front::Rejected(e),
+        Ok(Ok(())) => match catch(|| asn1rs_model::proc_macro::asn_to_rust(text)) {
+            Err(p) => Front::Panic(format!("generator: {p}")),
+            Ok(_) => Front::Accepted,
+        },
+    }
+}
+
+fn target_root() -> PathBuf {
+    PathBuf::from(std::env::var("CARGO_TARGET_DIR").unwrap_or_else(|_| "/verif/.target".into()))
+}
+
+const CRATES: usize = 16;
+
+/// writes the scratch workspace; `active[i]` says whether case i takes part
+fn write_workspace(ws: &Path, cases: &[Case], active: &[bool], first: bool) {
+    if first {
+        let _ = std::fs::remove_dir_all(ws);
+        for k in 0..CRATES {
+            std::fs::create_dir_all(ws.join(format!("g{k:02}/src"))).unwrap_or_else(|e| machinery_error(&format!("cannot create workspace: {e}")));
+            std::fs::write(ws.join(format!("g{k:02}/Cargo.toml")), format!("[package]\nname = \"g{k:02}\"\nversion = \"0.1.0\"\nedition = \"2018\"\n\n[dependencies]\nasn1rs = {{ path = \"/repo\" }}\n")).unwrap();
+        }
+        let members: Vec<String> = (0..CRATES).map(|k| format!("\"g{k:02}\"")).collect();
+        std::fs::write(ws.join("Cargo.toml"), format!("[workspace]\nresolver = \"2\"\nmembers = [{}]\n", members.join(", "))).unwrap();
+        if let Ok(lock) = std::fs::read_to_string("/repo/Cargo.lock") {
+            // the subject's lock file pins every dependency; cargo adds the scratch crates itself
+            let _ = std::fs::write(ws.join("Cargo.lock"), lock);
+        }
+        for (i, c) in cases.iter().enumerate() {
+            if active[i] {
+                let k = i % CRATES;
+                let mut hashes = String::from("#");
+                while c.text.contains(&format!("\"{hashes}")) {
+                    hashes.push('#');
+                }
+                std::fs::write(ws.join(format!("g{k:02}/src/m{i}.rs")), format!("asn1rs::macros::asn_to_rust!(r{hashes}\"{}\"{hashes});\n", c.text)).unwrap();
+            }
+        }
+    }
+    for k in 0..CRATES {
+        let mut lib = String::from("#![allow(warnings)]\n");
+        for i in (k..cases.len()).step_by(CRATES) {
+            if active[i] {
+                lib.push_str(&format!("pub mod m{i};\n"));
+            }
+        }
+        std::fs::write(ws.join(format!("g{k:02}/src/lib.rs")), lib).unwrap();
+    }
+}
+
+#[derive(Debug, Clone)]
+pub struct RustcError {
+    pub code: String,
+    pub message: String,
+}
+
+/// one `cargo check` of the workspace: errors per case index, and errors that name no case file
+fn cargo_check(ws: &Path) -> (BTreeMap<usize, Vec<RustcError>>, Vec<String>, bool) {
+    let out = std::process::Command::new("cargo")
+        .args(["check", "--offline", "--workspace", "--keep-going", "--message-format=json", "-q"])
+        .current_dir(ws)
+        .env("CARGO_TARGET_DIR", target_root().join("c09_target"))
+        .env("CARGO_NET_OFFLINE", "true")
+        .env_remove("RUSTFLAGS")
+        .output()
+        .unwrap_or_else(|e| machinery_error(&format!("cannot run cargo: {e}")));
+    let mut per: BTreeMap<usize, Vec<RustcError>> = BTreeMap::new();
+    let mut other = vec![];
+    for line in String::from_utf8_lossy(&out.stdout).lines() {
+        let Ok(v) = serde_json::from_str::<J>(line) else { continue };
+        if v["reason"] != "compiler-message" {
+            continue;
+        }
+        let m = &v["message"];
+        let level = m["level"].as_str().unwrap_or("");
+        if level != "error" && !level.starts_with("error") {
+            continue;
+        }
+        let msg = m["message"].as_str().unwrap_or("").to_string();
+        if msg.starts_with("aborting due to") || msg.starts_with("could not compile") {
+            continue;
+        }
+        let code = m["code"]["code"].as_str().unwrap_or("no-code").to_string();
+        let mut file: Option<usize> = None;
+        fn find(spans: &J, file: &mut Option<usize>) {
+            if let Some(a) = spans.as_array() {
+                // primary spans first
+                for pass in [true, false] {
+                    for s in a {
+                        if file.is_some() {
+                            return;
+                        }
+                        if s["is_primary"].as_bool().unwrap_or(false) != pass {
+                            continue;
+                        }
+                        let mut cur = s;
+                        // walk out of macro expansions to the call site in a case file
+                        for _ in 0..32 {
+                            if let Some(n) = case_of(cur["file_name"].as_str().unwrap_or("")) {
+                                *file = Some(n);
+                                break;
+                            }
+                            if cur["expansion"].is_null() {
+                                break;
+                            }
+                            cur = &cur["expansion"]["span"];
+                        }
+                    }
+                }
+            }
+        }
+        find(&m["spans"], &mut file);
+        if file.is_none() {
+            if let Some(ch) = m["children"].as_array() {
+                for c in ch {
+                    find(&c["spans"], &mut file);
+                }
+            }
+        }
+        match file {
+            Some(i) => per.entry(i).or_default().push(RustcError { code, message: msg }),
+            None => other.push(format!("[{code}] {}", truncate(&msg, 300))),
+        }
+    }
+    let stderr = String::from_utf8_lossy(&out.stderr);
+    if !out.status.success() && per.is_empty() && other.is_empty() {
+        other.push(format!("cargo failed without a compiler message: {}", truncate(&stderr, 600)));
+    }
+    (per, other, out.status.success())
+}
+
+fn case_of(file: &str) -> Option<usize> {
+    let name = file.rsplit('/').next()?;
+    let n = name.strip_prefix('m')?.strip_suffix(".rs")?;
+    n.parse().ok()
+}
+
+/// compile all `active` cases; returns the errors of every case that does not compile and the number of rounds
+pub fn compile_all(ws: &Path, cases: &[Case], active: &mut [bool]) -> (BTreeMap<usize, Vec<RustcError>>, usize) {
+    let mut failed: BTreeMap<usize, Vec<RustcError>> = BTreeMap::new();
+    let mut rounds = 0;
+    loop {
+        write_workspace(ws, cases, active, rounds == 0);
+        rounds += 1;
+        let (per, other, ok) = cargo_check(ws);
+        if !other.is_empty() {
+            machinery_error(&format!("compiler errors that name no case file (round {rounds}): {}", other.iter().take(5).cloned().collect::<Vec<_>>().join(" | ")));
+        }
+        if per.is_empty() {
+            if !ok {
+                machinery_error("cargo check failed but reported no error");
+            }
+            return (failed, rounds);
+        }
+        for (i, e) in per {
+            active[i] = false;
+            failed.entry(i).or_default().extend(e);
+        }
+        if rounds > 12 {
+            machinery_error("no fixpoint after 12 rounds of cargo check");
+        }
+    }
+}
+
+/// generalises a case name so that cases differing only in a counter share a class
+fn family(label: &str) -> String {
+    let parts: Vec<&str> = label.split('/').collect();
+    match parts[0] {
+        "form" => {
+            let ctx = parts.get(1).copied().unwrap_or("");
+            let leaf = parts.get(2).copied().unwrap_or("");
+            let fam = leaf.split('-').next().unwrap_or("");
+            let _ = fam;
+            if ctx == "depth2" { format!("form.depth2.{}.{}", leaf, parts.get(3).copied().unwrap_or("")) } else { format!("form.{leaf}.{ctx}") }
+        }
+        "literal" if parts.len() == 4 && parts[2].starts_with("bit-string") => format!("literal.{}.bit-string", parts[1]),
+        "literal" if parts.len() == 4 && parts[2] == "integer-un" && parts[3].starts_with('-') => format!("literal.{}.integer-un.negative", parts[1]),
+        "keyword" | "risky-name" | "type-name" => format!("{}.{}.{}", parts[0], parts.get(1).copied().unwrap_or(""), parts.get(2).copied().unwrap_or("")),
+        _ => label.replace('/', "."),
+    }
+}
+
+fn error_kind(errs: &[RustcError]) -> String {
+    let codes: BTreeSet<String> = errs.iter().map(|e| if e.code == "no-code" { if e.message.contains("proc macro panicked") || e.message.contains("proc-macro") { "macro-panic".to_string() } else { "syntax".to_string() } } else { e.code.clone() }).collect();
+    codes.into_iter().collect::<Vec<_>>().join("+")
+}
+
+pub fn run(args: &Args) -> ! {
+    let mut report = Report::new(args, "translation_validation");
+    let thorough = args.tier.is_thorough();
+    let cases = cases(thorough);
+    let mut active = vec![false; cases.len()];
+    let mut rejected = 0u64;
+    let mut rejected_samples: BTreeMap<String, String> = BTreeMap::new();
+    let mut agg: BTreeMap<String, (u64, Failure)> = BTreeMap::new();
+    let mut add = |class: String, f: Failure| {
+        agg.entry(class).or_insert((0, f)).0 += 1;
+    };
+    for (i, c) in cases.iter().enumerate() {
+        match front(&c.text) {
+            Front::Accepted => active[i] = true,
+            Front::Rejected(e) => {
+                rejected += 1;
+                rejected_samples.entry(family(&c.label)).or_insert(e);
+            }
+            Front::Panic(p) => {
+                let class = format!("c09.panic-instead-of-error.{}", family(&c.label));
+                add(class.clone(), Failure { class, case: json!({"kind": "c09", "label": c.label, "asn": c.text}), expected: "an error value or generated code".into(), observed: truncate(&p, 300) });
+            }
+        }
+    }
+    let accepted = active.iter().filter(|a| **a).count();
+    let ws = target_root().join("c09ws");
+    let (failed, rounds) = compile_all(&ws, &cases, &mut active);
+    // the repository's own test modules are known to compile: they anchor the harness
+    for (i, c) in cases.iter().enumerate() {
+        if c.label.starts_with("repo-test/") && failed.contains_key(&i) {
+            machinery_error(&format!("{} (compiled by the repository's own tests) does not compile in the scratch workspace: {:?}", c.label, failed[&i].first()));
+        }
+    }
+    for (i, errs) in &failed {
+        let c = &cases[*i];
+        // the class names the input only; the error codes are part of the observation
+        let class = format!("c09.does-not-compile.{}", family(&c.label));
+        let _ = error_kind(errs);
+        let msgs: Vec<String> = errs.iter().take(3).map(|e| format!("[{}] {}", e.code, truncate(&e.message, 160))).collect();
+        add(class.clone(), Failure { class, case: json!({"kind": "c09", "label": c.label, "asn": c.text}), expected: "cargo check accepts the crate containing asn_to_rust!(module)".into(), observed: msgs.join(" | ") });
+    }
+    drop(add);
+    for (k, (n, f)) in agg {
+        report.merge(k, n, f);
+    }
+    let compiled = active.iter().filter(|a| **a).count();
+    let mut cov = Map::new();
+    cov.insert("exhaustive".into(), json!(true));
+    cov.insert("programs".into(), json!(cases.len()));
+    cov.insert("accepted_by_front_end".into(), json!(accepted));
+    cov.insert("rejected_by_front_end".into(), json!(rejected));
+    cov.insert("compiled_clean".into(), json!(compiled));
+    cov.insert("do_not_compile".into(), json!(failed.len()));
+    cov.insert("cargo_check_rounds".into(), json!(rounds));
+    cov.insert("evaluations".into(), json!(accepted));
+    cov.insert("distinct_nontrivial".into(), json!(accepted));
+    cov.insert("disagreements_checked".into(), json!(accepted));
+    cov.insert("identifier_pool".into(), json!({"rust_keywords": KEYWORDS.len(), "risky_lowercase_names": RISKY_LOWER.len(), "type_names": TYPE_NAMES.len(), "positions_per_lowercase_name": 12, "positions_per_type_name": 5}));
+    cov.insert("rejected_samples".into(), json!(rejected_samples.iter().take(12).map(|(k, v)| format!("{k}: {v}")).collect::<Vec<_>>()));
+    cov.insert("rule".into(), json!("every case is one ASN.1 module; cases accepted by the real front end (Model::try_from + try_resolve, and the generator run in process must not panic) are written as asn1rs::asn_to_rust!(r\"..\") one file per case into a scratch workspace of 16 crates depending on /repo, and `cargo check` (real rustc, real proc macros asn_to_rust! and #[asn]) decides; errors are attributed to the case file of their primary span (walking out of macro expansions); failing cases are removed and the check repeated until all remaining cases compile together, so each accepted case is decided. The repository's own 37 inline test modules are part of every run and must compile (harness anchor)."));
+    report.finish(cov, vec!["a module the front end rejects with an error value satisfies the property (counted as rejected); a panic does not".into(), "warnings are allowed, deny-by-default lints are errors as for a user".into()])
+}
+
+pub fn replay(case: &J) -> ! {
+    let label = case["label"].as_str().unwrap_or("").to_string();
+    let text = case["asn"].as_str().unwrap_or("").to_string();
+    match front(&text) {
+        Front::Rejected(e) => {
+            println!("ok (rejected by the front end: {e})");
+            std::process::exit(0)
+        }
+        Front::Panic(p) => {
+            println!("FAIL c09.panic-instead-of-error.{} {p}", family(&label));
+            std::process::exit(1)
+        }
+        Front::Accepted => {}
+    }
+    let cases = vec![Case { label: label.clone(), text }];
+    let mut active = vec![true];
+    let ws = target_root().join("c09ws_replay");
+    let (failed, _) = compile_all(&ws, &cases, &mut active);
+    let _ = std::fs::remove_dir_all(&ws);
+    if let Some(errs) = failed.get(&0) {
+        println!("FAIL c09.does-not-compile.{} ({})", family(&label), error_kind(errs));
+        for e in errs.iter().take(5) {
+            println!("  [{}] {}", e.code, truncate(&e.message, 200));
+        }
+        std::process::exit(1)
+    }
+    println!("ok");
+    std::process::exit(0)
 }
